@@ -1,6 +1,10 @@
 mod term;
+mod c39;
+mod c35;
 mod c31;
 mod c05;
+mod store;
+mod c01;
 
 fn main() {
     let args: Vec<String> = std::env::args().collect();
@@ -16,6 +20,9 @@ fn main() {
     match prop {
         "C31" => c31::run(seed, n, &mut out),
         "C05" => c05::run(seed, n, &mut out),
+        "C01" => c01::run(seed, n, &mut out),
+        "C35" => c35::run(seed, n, &mut out),
+        "C39" => c39::run(seed, n, &mut out),
         _ => { eprintln!("unknown property {}", prop); std::process::exit(2); }
     }
 }
